@@ -60,6 +60,7 @@ pub fn node_case<H: HB>(prop: &str, node: &Node<H>, universe: &[u32], last: Opti
         universe: universe.to_vec(),
         aux: None,
         trail: vec![],
+        params: vec![],
     }
 }
 
@@ -228,4 +229,31 @@ pub fn rebuild_state<H: HB>(double: bool, root: &Root, ops: &[Op], universe: &[u
 
 pub fn _unused<H: HB>(q: &AnyQ<H>) -> usize {
     with_q!(q, x => x.q_len())
+}
+
+/// == between queues built with different hashers.
+pub fn eq_cross<H1: HB, H2: HB>(a: &AnyQ<H1>, b: &AnyQ<H2>) -> Result<(), String> {
+    let to_set = |s: &Snap| -> Vec<(u32, i32)> {
+        let mut v: Vec<(u32, i32)> = s.slots.iter().map(|x| (x.0, x.2)).collect();
+        v.sort();
+        v
+    };
+    let (sa, sb) = (a.snap(), b.snap());
+    let want = to_set(&sa) == to_set(&sb);
+    let r = catch_unwind(AssertUnwindSafe(|| match (a, b) {
+        (AnyQ::P(x), AnyQ::P(y)) => Some((x == y, y == x, x != y)),
+        (AnyQ::D(x), AnyQ::D(y)) => Some((x == y, y == x, x != y)),
+        _ => None,
+    }));
+    match r {
+        Err(e) => Err(format!("== across hashers panicked: {}", panic_text(&e))),
+        Ok(None) => Ok(()),
+        Ok(Some((ab, ba, ne))) => {
+            if ab != want || ba != want || ne == want {
+                Err(format!("across hashers ({} vs {}): a == b is {ab}, b == a is {ba}, a != b is {ne}; contents a={:?} b={:?}", H1::NAME, H2::NAME, sa.slots, sb.slots))
+            } else {
+                Ok(())
+            }
+        }
+    }
 }
